@@ -216,3 +216,132 @@ def docs_blocks(repo):
                 for i, m in enumerate(re.finditer(rb"```(?:vcl|VCL)[^\n]*\n(.*?)```", txt, re.S)):
                     out.append(("doc:%s#%d" % (os.path.relpath(p, repo), i), m.group(1)))
     return out
+
+
+# ---------------------------------------------------------------------------------------------
+# INPUT SIZE x BUFFER BOUNDARIES.  The lexer reads through a bufio.Reader with a 4096-byte window
+# (ReadRune must reassemble a character that straddles a refill; Peek(n) slides the window), so the
+# position bookkeeping has to be exercised with multi-byte characters at every byte offset around
+# each multiple of 4096, inside every token kind that can hold them, with more tokens on the same
+# line afterwards (their columns depend on the straddling character being counted once).
+
+MB_CHARS = [("2b", b"\xc3\xa9"), ("3b", b"\xe6\x97\xa5"), ("4b", b"\xf0\x9f\x98\x80"),
+            ("cut3", b"\xe6\x97"), ("ff", b"\xff")]
+
+# kind -> (head up to the place where filler starts, filler byte, tail after the character)
+BOUNDARY_KINDS = [
+    ("string", b'sub f {\n  set req.http.A = "', b"a", b' tail" "s2" req.http.B | x; }\n'),
+    ("longstring", b'sub f {\n  set req.http.A = {"', b"a", b' tail"} "s2" req.http.B | x; }\n'),
+    ("delimstring", b'sub f {\n  set req.http.A = {xy"', b"a", b' t"x "xy} "s2" req.http.B | x; }\n'),
+    ("hashcomment", b"sub f {\n  set req.http.A = b; # ", b"c", b" tail\n  set req.http.C = d | x; }\n"),
+    ("slashcomment", b"sub f {\n  set req.http.A = b; // ", b"c", b" tail\n  set req.http.C = d | x; }\n"),
+    ("blockcomment", b"sub f {\n  /* ", b"c", b' t*il */ set req.http.A = "s" b | x; }\n'),
+    ("identgarbage", b"sub f {\n  set req.http.A = ", b"x", b'y "s" req.http.B | x; }\n'),
+    ("whitespace", b"sub f {\n  set req.http.A =", b" ", b' "s" req.http.B | x; }\n'),
+]
+
+
+def boundary_sweep(rng, thorough):
+    """a multi-byte (or cut) character starting at byte k, for k around each multiple of 4096"""
+    out = []
+    for bi, base in enumerate((4096, 8192, 12288)):
+        # a w-byte character straddles a refill at `base` when it starts at base-(w-1) .. base-1; Peek(n) may have
+        # slid the window by a few bytes, hence the margin (wider in the thorough tier)
+        ks = list(range(base - 6, base + 5)) if thorough else list(range(base - 4, base + 3))
+        for kind, head, fill, tail in BOUNDARY_KINDS:
+            for cname, ch in (MB_CHARS if thorough else MB_CHARS[:4]):
+                for k in ks:
+                    # quick tier: the first boundary completely, the later ones by a seeded sample
+                    if not thorough and bi > 0 and rng.random() > 0.1:
+                        continue
+                    n = k - len(head)
+                    out.append(("boundary:%s:%s@%d" % (kind, cname, k), head + fill * n + ch + tail))
+    return out
+
+
+def dense_multibyte(thorough):
+    """token bodies made of multi-byte characters only, in every phase: whatever the refill points are,
+    some character straddles each of them"""
+    out = []
+    size = 20500 if thorough else 8600
+    cyc = b"\xc3\xa9\xe6\x97\xa5\xf0\x9f\x98\x80"
+    for kind, head, fill, tail in BOUNDARY_KINDS:
+        for cname, ch in MB_CHARS[:3]:
+            for phase in range(len(ch)):
+                body = fill * phase + ch * ((size - len(head)) // len(ch))
+                out.append(("dense:%s:%s+%d" % (kind, cname, phase), head + body + tail))
+        for phase in range(len(cyc)):
+            body = fill * phase + cyc * (((4700 if not thorough else size) - len(head)) // len(cyc))
+            out.append(("dense:%s:mix+%d" % (kind, phase), head + body + tail))
+    return out
+
+
+# ---------------------------------------------------------------------------------------------
+# SPECIAL PREFIXES AND BYTE SEQUENCES that no grammar-driven generator emits, applied as prefix / infix /
+# suffix to valid programs and to each token kind.
+
+SPECIAL_SEQS = [
+    ("utf8-bom", b"\xef\xbb\xbf"), ("utf16le-bom", b"\xff\xfe"), ("utf16be-bom", b"\xfe\xff"),
+    ("utf32le-bom", b"\xff\xfe\x00\x00"), ("shebang", b"#!/usr/bin/falco\n"), ("formfeed", b"\x0c"),
+    ("vtab", b"\x0b"), ("nbsp", b"\xc2\xa0"), ("zwsp", b"\xe2\x80\x8b"), ("zwnj-bom-mid", b"\xef\xbb\xbf\xef\xbb\xbf"),
+    ("ls", b"\xe2\x80\xa8"), ("ps", b"\xe2\x80\xa9"), ("nel", b"\xc2\x85"), ("cr", b"\r"), ("crlf", b"\r\n"),
+    ("lfcr", b"\n\r"), ("nul", b"\x00"), ("del", b"\x7f"), ("esc", b"\x1b[0m"), ("bs", b"\x08"),
+    ("overlong-slash", b"\xc0\xaf"), ("overlong-nul", b"\xc0\x80"), ("overlong3", b"\xe0\x80\xaf"),
+    ("surrogate-hi", b"\xed\xa0\x80"), ("surrogate-lo", b"\xed\xb0\x80"), ("surrogate-pair", b"\xed\xa0\xbd\xed\xb8\x80"),
+    ("ff", b"\xff"), ("c0", b"\xc0"), ("c1", b"\xc1"), ("f5", b"\xf5"), ("beyond-max", b"\xf4\x90\x80\x80"),
+    ("lone-cont", b"\x80"), ("cont-run", b"\x80\xbf\x80"), ("replacement", b"\xef\xbf\xbd"), ("tab", b"\t"),
+]
+
+SPECIAL_BASES = [
+    b'sub vcl_recv {\n  set req.http.A = "x" + req.http.B; # c\n  if (req.url ~ "^/a") { return (pass); }\n}\n',
+    b'acl a { "10.0.0.0"/8; }\nbackend b { .host = "h"; }\nsub f { set var.i = 10ms; /* c */ call g; }\n',
+    b'set req.http.A = {xy"long"xy} "s" 0x1f 1.5e3 true;\nunset req.http.X-*;\n',
+]
+
+SPECIAL_TOKENS = [b"abc", b"req.http.X-Y:z", b"123", b"1.5", b"10ms", b'"str"', b'{"long"}', b'{d"long"d}', b"# c", b"// c",
+                  b"/* c */", b"==", b"||=", b"{", b"}", b";", b"C!", b"pragma x;", b"default", b"rol="]
+
+
+def special_sequences():
+    out = []
+    for name, seq in SPECIAL_SEQS:
+        for bi, base in enumerate(SPECIAL_BASES):
+            cuts = [m.end() for m in re.finditer(rb"[ \n]", base)]
+            places = {"prefix": 0, "suffix": len(base), "after-first-token": cuts[0], "mid": cuts[len(cuts) // 2],
+                      "before-last": cuts[-2] if len(cuts) > 1 else 0,
+                      "in-string": base.find(b'"') + 1, "in-comment": max(base.find(b"# c"), base.find(b"/* c")) + 2}
+            for pn, at in places.items():
+                out.append(("special:%s:%s:p%d" % (name, pn, bi), base[:at] + seq + base[at:]))
+        for tk in SPECIAL_TOKENS:
+            out.append(("special:%s:tok-prefix" % name, seq + tk))
+            out.append(("special:%s:tok-suffix" % name, tk + seq))
+            out.append(("special:%s:tok-both" % name, seq + tk + b" " + seq + b"x|"))
+        out.append(("special:%s:alone" % name, seq))
+        out.append(("special:%s:twice-lines" % name, seq + b"\n" + seq + b"a b\n" + seq))
+    return out
+
+
+def long_runs(thorough):
+    """very long tokens and runs (beyond the 4096-byte window), thousands of line feeds"""
+    out = []
+    sizes = (4095, 4096, 4097, 5000, 9000, 13000) if thorough else (4095, 4096, 4097, 9000)
+    for n in sizes:
+        out.append(("long:ident-%d" % n, b"set " + b"x" * n + b" = 1 | y;"))
+        out.append(("long:dotted-ident-%d" % n, b"set " + b"ab.c-d:e*" * (n // 9) + b" = 1 | y;"))
+        out.append(("long:number-%d" % n, b"set var.i = " + b"1" * n + b" | y;"))
+        out.append(("long:float-%d" % n, b"set var.i = 1." + b"5" * n + b"e3s | y;"))
+        out.append(("long:hex-%d" % n, b"set var.i = 0x" + b"f" * n + b".8p3 | y;"))
+        out.append(("long:spaces-%d" % n, b"set" + b" " * n + b"a = \xe6\x97\xa5 | y;"))
+        out.append(("long:tabs-cr-%d" % n, b"set" + b"\t\r" * (n // 2) + b"a = 1 | y;"))
+        out.append(("long:operators-%d" % n, b"a " + b"|" * n + b" b"))
+        out.append(("long:controls-%d" % n, b"C!" * (n // 2) + b" a | b"))
+        out.append(("long:pragma-%d" % n, b"pragma " + b"x " * (n // 2) + b"; set a = b | c;"))
+        out.append(("long:pragma-eof-%d" % n, b"sub f { pragma " + b"x " * (n // 2)))
+        out.append(("long:string-lines-%d" % n, b'set a = "' + b"l\n" * (n // 2) + b'" b | c;'))
+    for n in ((3000, 9000, 20000) if thorough else (3000, 5000)):
+        out.append(("long:lf-%d" % n, b"\n" * n + b'set a = "s" | b;\n'))
+        out.append(("long:crlf-%d" % n, b"\r\n" * n + b'set a = "s" | b;\r\n'))
+        out.append(("long:lf-comments-%d" % n, b"#\n" * n + b"set a = b | c;"))
+        out.append(("long:lf-in-block-comment-%d" % n, b"/*" + b"\n" * n + b"*/ set a = b | c;"))
+        out.append(("long:lf-in-long-string-%d" % n, b'set a = {"' + b"\n\xc3\xa9" * n + b'"} b | c;'))
+    return out
